@@ -231,8 +231,38 @@ def explore(ctx: Ctx):
         ctx.violation('control', 'comparison accepted swapped lines', broken='negative control', no_input=True)
 
 
+def parse_list_tie(ctx: Ctx):
+    """The model of loaders/utils.parse_list against the real function (S-api) on vectors written with blanks, tabs, empty pieces."""
+    from ..runner import coq_eval, coq_list, coq_str
+    common.use_repo()
+    from valiant.loaders.utils import parse_list
+    rng = ctx.rng
+    exprs, cases = [], []
+    items = ['snv', '1del', '2del0', 'sg1', 'a b', 'x', 'ala', '3', '0', 'snv re']
+    for _ in range(ctx.n(300, 3000)):
+        k = rng.randint(0, 5)
+        parts = []
+        for _i in range(k):
+            it = rng.choice(items + ['', '', ' ', '\t'])
+            parts.append(' ' * rng.randint(0, 2) + ('\t' if rng.random() < 0.1 else '') + it + ' ' * rng.randint(0, 2))
+        sv = ','.join(parts)
+        got = parse_list(sv)
+        ctx.evaluations += 1
+        exprs.append(f'list_eqb String.eqb (parse_list {coq_str(sv)}) {coq_list(coq_str(x) for x in got)}')
+        cases.append(sv)
+    bad, err = coq_eval(['Model.Base', 'Model.ParseList'], exprs)
+    ctx.corr['cases'] += len(exprs)
+    if err:
+        ctx.violation('correspondence', 'model evaluation failed: ' + err[:300], broken='coqc cases (C12 parse_list)', no_input=True)
+    for i in bad:
+        ctx.corr['disagreements'] += 1
+        ctx.violation('correspondence', f'parse_list({cases[i]!r}): model differs from the implementation', {'string': cases[i]},
+                      broken='correspondence S-api loaders.utils.parse_list')
+
+
 def run(ctx: Ctx):
     explore(ctx)
+    parse_list_tie(ctx)
     return {'rule': 'Each random SGE/cDNA design (ties on every prefix of the ORDER BY key: snvre/aa/ala/stop on the same codons, custom '
                     'records sharing position and id in several files) is run as a subprocess under PYTHONHASHSEED 0,1,2,3+seed and '
                     'in-process in 4-6 other presentations (targeton rows, PAM/custom/background records, manifest, GTF and annotation '
